@@ -195,9 +195,16 @@ class Ctx:
         env = dict(os.environ)
         env.update(GOPROXY="off", GOFLAGS="", VERIF_OUT=self.out, VERIF_SEED=str(self.seed), VERIF_TIER=self.tier)
         env.pop("GOTOOLCHAIN", None)
+        # The drivers run under go1.26.8 (pre-installed; GOTOOLCHAIN=local): go1.25.0's runtime can spin for ever in
+        # synctest's bubble bookkeeping (runtime.getOrSetBubbleSpecial) after a few hundred bubbles - seen in C01/C02
+        # thorough runs - and the newer runtime is also several times faster on bubble-heavy drivers.
+        gobin = "go"
+        if os.path.exists("/opt/veriftools/go1.26.8/bin/go") and not os.environ.get("VERIF_GO_DEFAULT"):
+            gobin = "/opt/veriftools/go1.26.8/bin/go"
+            env["GOTOOLCHAIN"] = "local"
         if extra_env:
             env.update(extra_env)
-        cmd = ["go", "test", "-tags", tags, "-vet=off", "-overlay", ov, "-run", run, "-count=1", "-timeout", "%ds" % timeout]
+        cmd = [gobin, "test", "-tags", tags, "-vet=off", "-overlay", ov, "-run", run, "-count=1", "-timeout", "%ds" % timeout]
         if race:
             cmd.append("-race")
         cmd += ["-v", pkg]
@@ -340,7 +347,7 @@ class Ctx:
                   assumptions=self.assumptions, wall_s=round(time.time() - self.t0, 1), violations=len(unlisted))
         evdir = os.path.join(VERIF, "evidence") if "VERIF_OUTROOT" not in os.environ else self.outroot
         os.makedirs(evdir, exist_ok=True)
-        if not self.replay:
+        if not self.replay and not os.environ.get("VERIF_SKIP_MC"):    # a run without its model step is not evidence
             json.dump(ev, open(os.path.join(evdir, self.pid + ".json"), "w"), indent=1)
         if rc == 0 and os.environ.get("VERIF_KEEP"):
             log("OK property=%s (traces kept in %s)" % (self.pid, self.out))
